@@ -20,6 +20,7 @@ import Driver.OpsEqual
 import Driver.OpsCodec
 import Driver.OpsText
 import Driver.OpsDeep
+import Driver.OpsBytes
 open Lean Driver
 
 def dispatch (op : String) (j : Json) : R Json :=
@@ -47,6 +48,7 @@ def dispatch (op : String) (j : Json) : R Json :=
   | "docDecode" => opDocDecode j
   | "deepRoundTrip" => opDeepRoundTrip j
   | "deepWF" => opDeepWF j
+  | "jsonBytes" => opJsonBytes j
   | "deepRead" => opDeepRead j
   | "deepGobRoundTrip" => opDeepGobRoundTrip j
   | "deepGobWF" => opDeepGobWF j
